@@ -272,7 +272,15 @@ pub fn run_case(case: &Value, trace: &mut Trace) {
                 ctl.cv.notify_all();
             }
             "peer_close" => {
-                if let Some(p) = peer_opt.take() {
+                if case["halfclose"].as_bool() == Some(true) {
+                    // the peer only ends its own direction (the daemon sees end-of-stream exactly as for a close) and goes on
+                    // reading: it must see end-of-stream from the daemon in turn
+                    if let Some(p) = peer_opt.as_ref() {
+                        let (chunks, _) = raw_drain(p);
+                        close_chunk_fds(&chunks);
+                        let _ = p.shutdown(std::net::Shutdown::Write);
+                    }
+                } else if let Some(p) = peer_opt.take() {
                     // orderly close: consume whatever the daemon has answered so far (a close with unread
                     // data would be seen as ECONNRESET by the daemon, which is outside this property)
                     let (chunks, _) = raw_drain(&p);
